@@ -117,7 +117,7 @@ func names(ts []int) string {
 			j++
 		}
 		if j-i >= 3 {
-			sb = append(sb, fmt.Sprintf("%s%d", tys[ts[i]].short, j-i))
+			sb = append(sb, fmt.Sprintf("%sx%d", tys[ts[i]].short, j-i))
 		} else {
 			for k := i; k < j; k++ {
 				sb = append(sb, tys[ts[k]].short)
@@ -188,7 +188,7 @@ func corpusList() []fn {
 	fs = append(fs, fn{name: "V_str_vf64", family: "V", quick: true, params: []int{tStr, tVF64}, variadic: true, results: u64})
 	fs = append(fs, fn{name: "V_vany", family: "V", quick: true, params: []int{tVAny}, variadic: true, results: u64})
 	fs = append(fs, fn{name: "V_i64_vstr", family: "V", quick: true, params: []int{tI64, tVStr}, variadic: true, results: u64})
-	fs = append(fs, fn{name: "V_int9_vint", family: "V", quick: true, params: cat(rep(tInt, 9), []int{tVInt}), variadic: true, results: u64})
+	fs = append(fs, fn{name: "V_intx9_vint", family: "V", quick: true, params: cat(rep(tInt, 9), []int{tVInt}), variadic: true, results: u64})
 	// family R: result lists over T of length 0..2 (all), a selection of length 3, threshold shapes
 	x := []int{tI64}
 	fs = append(fs, fn{name: "R_void", family: "R", quick: true, params: x})
@@ -222,7 +222,7 @@ func corpusList() []fn {
 		fs = append(fs, fn{name: "RT_" + names(r), family: "RT", quick: true, params: x, results: r})
 	}
 	// one with many parameters and many results
-	fs = append(fs, fn{name: "MR_int10_f64x16__int10", family: "RT", quick: true, params: cat(rep(tInt, 10), rep(tF64, 16)), results: rep(tInt, 10)})
+	fs = append(fs, fn{name: "MR_intx10_f64x16__intx10", family: "RT", quick: true, params: cat(rep(tInt, 10), rep(tF64, 16)), results: rep(tInt, 10)})
 	// uniqueness
 	u := map[string]bool{}
 	for _, f := range fs {
